@@ -7,7 +7,7 @@ mod recording_writer;
 mod text;
 
 use checked_reader::CheckedReader;
-use limit_reader::LimitReader;
+use limit_reader::{LimitReader, SeamReader};
 use recording_writer::{OffsetWriter, RecordingWriter};
 use rl2tp::avp::types::result_code::CodeValue;
 use rl2tp::avp::types::*;
@@ -189,6 +189,18 @@ fn run_case(line: &str) -> R<String> {
             let res = Message::<Vec<u8>>::try_read_validate(&mut r, opts_of(arg(1))?);
             let v = r.log.borrow().len();
             format!("{} viol={}", print_mres(&res, r.len()), v)
+        }
+        "DECS" => {
+            let b = unhex(arg(3))?;
+            let mut r = SeamReader::new(&b, arg(1).parse().map_err(|_| "seam".to_string())?);
+            let res = Message::<&[u8]>::try_read_validate(&mut r, opts_of(arg(2))?);
+            print_mres(&res, r.len())
+        }
+        "AVPSS" => {
+            let b = unhex(arg(2))?;
+            let mut r = SeamReader::new(&b, arg(1).parse().map_err(|_| "seam".to_string())?);
+            let res = AVP::try_read_greedy::<&[u8]>(&mut r);
+            print_avpres(&res, r.len())
         }
         "DECL" => {
             let b = unhex(arg(3))?;
